@@ -558,36 +558,300 @@ theorem nodeStep_spec (D : Doc) (s : RState) (id base : NodeId) (n : Node) (bi :
       exact ⟨trivial, a, fun p hp h => b p hp (newUriState_done D _ _ _ _ p h),
         fun h => c (newUriState_sound D _ _ _ _ h), fun h => d (newUriState_urisOk D _ _ _ hr h)⟩
 
+theorem doc?_of_docs_eq {a b : RState} (h : b.docs = a.docs) (r : NodeId) : b.doc? r = a.doc? r := by
+  unfold RState.doc?; rw [h]
+
+theorem postStep_docs (draft : Draft) (s : RState) (id base : NodeId) (n : Node) :
+    (postStep draft s id base n).docs = s.docs := by
+  unfold postStep
+  simp only
+  split
+  · rw [setAnchor_docs, setAnchor_docs, updInfo_docs]
+  · rw [updInfo_docs]
+
+/-! ### base URIs -/
+
+theorem snoc_induction {α} {P : List α → Prop} (hnil : P [])
+    (hsnoc : ∀ l a, P l → P (l ++ [a])) (l : List α) : P l := by
+  have : ∀ r : List α, P r.reverse := by
+    intro r
+    induction r with
+    | nil => exact hnil
+    | cons a r ih => rw [List.reverse_cons]; exact hsnoc _ _ ih
+  have h := this l.reverse
+  rwa [List.reverse_reverse] at h
+
+theorem baseUriAlong_snoc (D : Doc) (ret : Url) (l : List NodeId) (c : NodeId) :
+    baseUriAlong D ret (l ++ [c]) =
+      if startsResourceAt D.st D.draft c = true then Uri.resolveReference (baseUriAlong D ret l) (idUrl D.st c)
+      else baseUriAlong D ret l := by
+  unfold baseUriAlong
+  rw [← List.cons_append, List.filter_append, List.foldl_append]
+  by_cases h : startsResourceAt D.st D.draft c = true
+  · simp [h]
+  · simp [h]
+
+/-- the base URI along a lineage is the base URI along the lineage of its nearest resource root -/
+theorem baseUriAlong_nearest (D : Doc) (ret : Url) (l : List NodeId) :
+    ∀ s, isLineage D.st D.root l s = true →
+      ∃ l', isLineage D.st D.root l' (nearestResource D l) = true ∧
+        baseUriAlong D ret l' = baseUriAlong D ret l := by
+  refine snoc_induction (P := fun l => ∀ s, isLineage D.st D.root l s = true →
+      ∃ l', isLineage D.st D.root l' (nearestResource D l) = true ∧
+        baseUriAlong D ret l' = baseUriAlong D ret l) ?_ ?_ l
+  · intro s _
+    exact ⟨[], by simp [isLineage, nearestResource], rfl⟩
+  · intro l c ih s h
+    obtain ⟨hs, p, hp, hc⟩ := isLineage_snoc_inv _ _ _ _ _ h
+    rw [nearestResource_snoc, baseUriAlong_snoc]
+    by_cases hst : startsResourceAt D.st D.draft c = true
+    · rw [if_pos hst, if_pos hst]
+      exact ⟨l ++ [c], isLineage_snoc _ _ _ _ _ hp hc, by rw [baseUriAlong_snoc, if_pos hst]⟩
+    · rw [if_neg hst, if_neg hst]
+      exact ih p hp
+
+/-- the info of `r` holds the base URI along a lineage of `r` -/
+def UriDone (D : Doc) (ret : Url) (infos : List (NodeId × Info)) (r : NodeId) : Prop :=
+  ∃ i l, lookupNat r infos = some i ∧ isLineage D.st D.root l r = true ∧ i.uri = some (baseUriAlong D ret l)
+
+def HasBase (infos : List (NodeId × Info)) (p r : NodeId) : Prop :=
+  ∃ i, lookupNat p infos = some i ∧ i.base = some r
+
+theorem uriDone_updInfo (D : Doc) (ret : Url) (s : RState) (k : NodeId) (f : Info → Info) (r : NodeId)
+    (hf : k = r → ∀ i, (f i).uri = i.uri) (h : UriDone D ret s.infos r) :
+    UriDone D ret (s.updInfo k f).infos r := by
+  obtain ⟨i, l, hi, hl, hu⟩ := h
+  rw [UriDone, updInfo_infos_lookup]
+  split
+  · rename_i hk
+    exact ⟨f i, l, by rw [hi]; rfl, hl, by rw [hf hk, hu]⟩
+  · exact ⟨i, l, hi, hl, hu⟩
+
+theorem uriDone_setAnchor (D : Doc) (ret : Url) (s : RState) (b t : NodeId) (a : String) (dyn : Bool)
+    (r : NodeId) (h : UriDone D ret s.infos r) : UriDone D ret (setAnchor s b t a dyn).infos r := by
+  rw [setAnchor_eq]; split
+  · exact h
+  · exact uriDone_updInfo D ret s b _ r (fun _ i => addAnchor_uri a t dyn i) h
+
+theorem uriDone_postStep (D : Doc) (ret : Url) (draft : Draft) (s : RState) (id base : NodeId) (n : Node)
+    (r : NodeId) (h : UriDone D ret s.infos r) : UriDone D ret (postStep draft s id base n).infos r := by
+  unfold postStep
+  simp only
+  split
+  · exact uriDone_setAnchor _ _ _ _ _ _ _ _ (uriDone_setAnchor _ _ _ _ _ _ _ _
+      (uriDone_updInfo D ret s id _ r (fun _ _ => rfl) h))
+  · exact uriDone_updInfo D ret s id _ r (fun _ _ => rfl) h
+
+theorem uriDone_newUriState_ne (D : Doc) (ret : Url) (root : NodeId) (s : RState) (id : NodeId) (u : Url)
+    (r : NodeId) (hr : r ≠ id) (h : UriDone D ret s.infos r) :
+    UriDone D ret (newUriState root s id u).infos r := by
+  rw [newUriState_infos]
+  exact uriDone_updInfo D ret s id _ r (fun e => absurd e.symm hr) h
+
+theorem uriDone_newUriState_self (D : Doc) (ret : Url) (root : NodeId) (s : RState) (id : NodeId) (u : Url)
+    (l : List NodeId) (hid : (lookupNat id s.infos).isSome = true)
+    (hl : isLineage D.st D.root l id = true) (hu : u = baseUriAlong D ret l) :
+    UriDone D ret (newUriState root s id u).infos id := by
+  rw [newUriState_infos, UriDone, updInfo_infos_lookup, if_pos rfl]
+  cases h0 : lookupNat id s.infos with
+  | none => rw [h0] at hid; simp at hid
+  | some i0 => exact ⟨_, l, rfl, hl, by rw [hu]⟩
+
+theorem hasBase_updInfo (s : RState) (k : NodeId) (f : Info → Info) (p r : NodeId)
+    (hf : k = p → ∀ i, (f i).base = i.base) (h : HasBase s.infos p r) :
+    HasBase (s.updInfo k f).infos p r := by
+  obtain ⟨i, hi, hb⟩ := h
+  rw [HasBase, updInfo_infos_lookup]
+  split
+  · rename_i hk
+    exact ⟨f i, by rw [hi]; rfl, by rw [hf hk, hb]⟩
+  · exact ⟨i, hi, hb⟩
+
+theorem hasBase_postStep_ne (draft : Draft) (s : RState) (id base : NodeId) (n : Node) (p r : NodeId)
+    (hp : p ≠ id) (h : HasBase s.infos p r) : HasBase (postStep draft s id base n).infos p r := by
+  unfold postStep
+  simp only
+  have h1 := hasBase_updInfo s id (fun i => { i with base := some base }) p r (fun e => absurd e.symm hp) h
+  split
+  · exact hasBase_setAnchor _ _ _ _ _ _ _ (hasBase_setAnchor _ _ _ _ _ _ _ h1)
+  · exact h1
+
+theorem hasBase_postStep_self (draft : Draft) (s : RState) (id base : NodeId) (n : Node)
+    (hid : (lookupNat id s.infos).isSome = true) : HasBase (postStep draft s id base n).infos id base := by
+  unfold postStep
+  simp only
+  have h1 := hasBase_set s id base hid
+  split
+  · exact hasBase_setAnchor _ _ _ _ _ _ _ (hasBase_setAnchor _ _ _ _ _ _ _ h1)
+  · exact h1
+
+theorem hasBase_newUriState (root : NodeId) (s : RState) (id : NodeId) (u : Url) (p r : NodeId)
+    (h : HasBase s.infos p r) : HasBase (newUriState root s id u).infos p r := by
+  rw [newUriState_infos]
+  exact hasBase_updInfo s id _ p r (fun _ _ => rfl) h
+
+/-- every registered URI identifies the resource it is registered for -/
+def UrisId (D : Doc) (ret : Url) (s : RState) : Prop :=
+  ∀ d, s.doc? D.root = some d → ∀ e ∈ d.uris, D.Identifies ret e.1 e.2
+
+theorem UrisId.of_docs_eq {D : Doc} {ret : Url} {a b : RState} (h : b.docs = a.docs) (ha : UrisId D ret a) :
+    UrisId D ret b := by
+  intro d hd
+  exact ha d (by rw [← doc?_of_docs_eq h]; exact hd)
+
+theorem newUriState_urisId (D : Doc) (ret : Url) (s : RState) (id : NodeId) (u : Url)
+    (hr : D.Identifies ret (Uri.toString u) id) (h : UrisId D ret s) :
+    UrisId D ret (newUriState D.root s id u) := by
+  unfold newUriState
+  simp only
+  split
+  · rename_i d hd
+    intro d' hd' e he
+    rw [doc?_setDoc] at hd'
+    have hroot : d.root = D.root := doc?_root _ _ _ hd
+    simp only [hroot, if_true, Option.some.injEq] at hd'
+    subst hd'
+    simp only at he
+    rcases List.mem_append.mp he with h1 | h1
+    · have hd0 : s.doc? D.root = some d := by
+        rw [← doc?_of_docs_eq (updInfo_docs s id fun i => { i with uri := some u })]; exact hd
+      exact h d hd0 e (List.mem_filter.mp h1).1
+    · simp only [List.mem_singleton] at h1
+      subst h1; exact hr
+  · exact UrisId.of_docs_eq (updInfo_docs _ _ _) h
+
+/-- the URI part of one schema of resolveURIs -/
+theorem nodeStep_uri (D : Doc) (ret : Url) (s : RState) (id base : NodeId) (n : Node) (bi : Info)
+    (s1 : RState) (base1 : NodeId)
+    (hid : (lookupNat id s.infos).isSome = true)
+    (hstep : uriStep D.draft D.root s id base n bi = .ok (s1, base1))
+    (huri : startsResource D.draft n = true → ∀ bu idURI, bi.uri = some bu → Uri.parse n.id = .ok idURI →
+      ∃ l, isLineage D.st D.root l id = true ∧ nearestResource D l = id ∧
+        Uri.resolveReference bu idURI = baseUriAlong D ret l) :
+    (∀ r, (r ≠ id ∨ startsResource D.draft n = false) → UriDone D ret s.infos r →
+      UriDone D ret (postStep D.draft s1 id base1 n).infos r) ∧
+    (startsResource D.draft n = true → UriDone D ret (postStep D.draft s1 id base1 n).infos id) ∧
+    (∀ p r, p ≠ id → HasBase s.infos p r → HasBase (postStep D.draft s1 id base1 n).infos p r) ∧
+    HasBase (postStep D.draft s1 id base1 n).infos id base1 ∧
+    (UrisId D ret s → UrisId D ret (postStep D.draft s1 id base1 n)) := by
+  -- the three shapes of the `$id` block
+  have key : (startsResource D.draft n = false ∧ (s1 = s ∨ ∃ a, s1 = setAnchor s base id a false)) ∨
+      (startsResource D.draft n = true ∧ ∃ idURI bu, Uri.parse n.id = .ok idURI ∧ bi.uri = some bu ∧
+        s1 = newUriState D.root s id (Uri.resolveReference bu idURI)) := by
+    cases hdr : D.draft with
+    | d2020 =>
+      rw [hdr] at hstep
+      rcases uriStep_d2020 _ _ _ _ _ _ _ _ hstep with ⟨h0, h1, _⟩ | ⟨h0, _, idURI, bu, hp, hbu, h1⟩
+      · exact Or.inl ⟨by simp [startsResource, h0], Or.inl h1⟩
+      · exact Or.inr ⟨by simp [startsResource, h0], idURI, bu, hp, hbu, h1⟩
+    | d7 =>
+      rw [hdr] at hstep
+      rcases uriStep_d7 _ _ _ _ _ _ _ _ hstep with ⟨h0, h1, _⟩ | ⟨_, _, h3, h4, _⟩ |
+        ⟨h1, h2, h3, _, idURI, bu, hp, hbu, h4⟩
+      · exact Or.inl ⟨by rcases h0 with h0 | h0 <;> simp [startsResource, h0], Or.inl h1⟩
+      · exact Or.inl ⟨by simp [startsResource, h3], Or.inr ⟨_, h4⟩⟩
+      · exact Or.inr ⟨by simp [startsResource, h1, h2, h3], idURI, bu, hp, hbu, h4⟩
+  rcases key with ⟨hns, hs1⟩ | ⟨hst, idURI, bu, hp, hbu, hs1⟩
+  · have hU : ∀ r, UriDone D ret s.infos r → UriDone D ret s1.infos r := by
+      intro r h
+      rcases hs1 with rfl | ⟨a, rfl⟩
+      · exact h
+      · exact uriDone_setAnchor _ _ _ _ _ _ _ _ h
+    have hB : ∀ p r, HasBase s.infos p r → HasBase s1.infos p r := by
+      intro p r h
+      rcases hs1 with rfl | ⟨a, rfl⟩
+      · exact h
+      · exact hasBase_setAnchor _ _ _ _ _ _ _ h
+    have hK : Keeps s s1 := by
+      rcases hs1 with rfl | ⟨a, rfl⟩
+      · exact Keeps.refl _
+      · exact setAnchor_keeps _ _ _ _ _
+    have hD : s1.docs = s.docs := by
+      rcases hs1 with rfl | ⟨a, rfl⟩
+      · rfl
+      · exact setAnchor_docs _ _ _ _ _
+    refine ⟨fun r _ h => uriDone_postStep _ _ _ _ _ _ _ _ (hU r h), fun h => ?_,
+      fun p r hp h => hasBase_postStep_ne _ _ _ _ _ _ _ hp (hB p r h),
+      hasBase_postStep_self _ _ _ _ _ (hK.1 _ hid),
+      fun h => UrisId.of_docs_eq ((postStep_docs _ _ _ _ _).trans hD) h⟩
+    rw [hns] at h; simp at h
+  · obtain ⟨l, hl, hnear, hu⟩ := huri hst bu idURI hbu hp
+    subst hs1
+    have hK := newUriState_keeps D.root s id (Uri.resolveReference bu idURI)
+    refine ⟨fun r hr h => ?_, fun _ => ?_,
+      fun p r hp h => hasBase_postStep_ne _ _ _ _ _ _ _ hp (hasBase_newUriState _ _ _ _ _ _ h),
+      hasBase_postStep_self _ _ _ _ _ (hK.1 _ hid), fun h => ?_⟩
+    · have hne : r ≠ id := by
+        rcases hr with hr | hr
+        · exact hr
+        · rw [hst] at hr; simp at hr
+      exact uriDone_postStep _ _ _ _ _ _ _ _ (uriDone_newUriState_ne D ret _ s id _ r hne h)
+    · exact uriDone_postStep _ _ _ _ _ _ _ _ (uriDone_newUriState_self D ret _ s id _ l hid hl hu)
+    · apply UrisId.of_docs_eq (postStep_docs _ _ _ _ _)
+      apply newUriState_urisId D ret s id _ _ h
+      exact Or.inr ⟨⟨l, hl, hnear⟩, _, ⟨l, hl, rfl⟩, by rw [hu]⟩
+
 /-! ### the worklist of resolveURIs -/
 
-/-- a worklist entry `(schema, base)`: the root with itself, or a child together with the resource
-    root of its parent -/
+/-- a worklist entry `(schema, base)`: a child together with the resource root of its parent -/
 def WorkOk (D : Doc) (w : NodeId × NodeId) : Prop :=
-  (w.1 = D.root ∧ w.2 = D.root) ∨ ∃ p, D.ResourceRoot p w.2 ∧ isChild D.st p w.1 = true
+  ∃ p, D.ResourceRoot p w.2 ∧ isChild D.st p w.1 = true
 
 theorem workOk_resourceRoot (D : Doc) (id base : NodeId) (n : Node) (hw : WorkOk D (id, base))
     (hn : D.st.get? id = some n) :
     D.ResourceRoot id (if startsResource D.draft n = true then id else base) := by
-  rcases hw with ⟨h1, h2⟩ | ⟨p, hp, hc⟩
-  · simp only at h1 h2
-    subst h1 h2
-    split <;> exact resourceRoot_root D
-  · have := resourceRoot_child D p base id hp hc
-    have hs : startsResourceAt D.st D.draft id = startsResource D.draft n := by
-      unfold startsResourceAt; rw [hn]
-    rw [hs] at this
-    exact this
+  obtain ⟨p, hp, hc⟩ := hw
+  have := resourceRoot_child D p base id hp hc
+  have hs : startsResourceAt D.st D.draft id = startsResource D.draft n := by
+    unfold startsResourceAt; rw [hn]
+  rw [hs] at this
+  exact this
 
-theorem resolveURIsLoop_desig (env : Env) (D : Doc) (hst : D.st = env.st) :
+/-- every schema has one lineage (ResTree.lean: checkStructure accepted the document) -/
+def UniqueLineage (D : Doc) : Prop :=
+  ∀ l1 l2 s, isLineage D.st D.root l1 s = true → isLineage D.st D.root l2 s = true → l1 = l2
+
+theorem idUrl_of_parse (st : Store) (id : NodeId) (n : Node) (u : Url) (hn : st.get? id = some n)
+    (hp : Uri.parse n.id = .ok u) : idUrl st id = u := by
+  unfold idUrl; rw [hn]; simp only [hp]
+
+/-- the `$id` of a child resolved against the recorded URI of the parent's resource root is the base
+    URI along the child's lineage -/
+theorem workOk_uri (D : Doc) (ret : Url) (huniq : UniqueLineage D) (infos : List (NodeId × Info))
+    (id base : NodeId) (n : Node) (bi : Info)
+    (hw : WorkOk D (id, base)) (hn : D.st.get? id = some n) (hb : lookupNat base infos = some bi)
+    (hU : UriDone D ret infos base) (hst : startsResource D.draft n = true) (bu idURI : Url)
+    (hbu : bi.uri = some bu) (hp : Uri.parse n.id = .ok idURI) :
+    ∃ l, isLineage D.st D.root l id = true ∧ nearestResource D l = id ∧
+      Uri.resolveReference bu idURI = baseUriAlong D ret l := by
+  obtain ⟨p, ⟨lp, hlp, hnear⟩, hc⟩ := hw
+  obtain ⟨ib, lb, hib, hlb, hub⟩ := hU
+  rw [hb] at hib
+  simp only [Option.some.injEq] at hib
+  subst hib
+  rw [hbu] at hub
+  simp only [Option.some.injEq] at hub
+  have hs : startsResourceAt D.st D.draft id = true := by
+    unfold startsResourceAt; rw [hn]; exact hst
+  obtain ⟨l', hl', heq⟩ := baseUriAlong_nearest D ret lp p hlp
+  simp only at hnear
+  rw [hnear] at hl'
+  have : l' = lb := huniq l' lb base hl' hlb
+  subst this
+  refine ⟨lp ++ [id], isLineage_snoc _ _ _ _ _ hlp hc, by rw [nearestResource_snoc, if_pos hs], ?_⟩
+  rw [baseUriAlong_snoc, if_pos hs, ← heq, ← hub, idUrl_of_parse _ _ _ _ hn hp]
+
+theorem resolveURIsLoop_desig (env : Env) (D : Doc) (hst : D.st = env.st) (ret : Url)
+    (huniq : UniqueLineage D) :
     ∀ fuel work s s' (P : NodeId → Prop),
       resolveURIsLoop env D.draft D.root fuel work s = .ok s' →
-      (∀ w ∈ work, WorkOk D w) →
-      (∀ p, P p → Done D s.infos p) →
+      (∀ w ∈ work, WorkOk D w ∧ UriDone D ret s.infos w.2) →
+      (∀ p, P p → Done D s.infos p ∧ ∃ r, HasBase s.infos p r ∧ UriDone D ret s.infos r) →
       (∀ p, P p → ∀ c, isChild D.st p c = true → P c ∨ c ∈ work.map (·.1)) →
       ∃ P' : NodeId → Prop, (∀ p, P p → P' p) ∧ (∀ w ∈ work, P' w.1) ∧
-        (∀ p, P' p → Done D s'.infos p) ∧
+        (∀ p, P' p → Done D s'.infos p ∧ ∃ r, HasBase s'.infos p r ∧ UriDone D ret s'.infos r) ∧
         (∀ p, P' p → ∀ c, isChild D.st p c = true → P' c) ∧
-        (Sound D s.infos → Sound D s'.infos) ∧ (UrisOk D s → UrisOk D s') := by
+        (Sound D s.infos → Sound D s'.infos) ∧ (UrisId D ret s → UrisId D ret s') := by
   intro fuel
   induction fuel with
   | zero => intro work s s' P h; simp [resolveURIsLoop] at h
@@ -603,23 +867,49 @@ theorem resolveURIsLoop_desig (env : Env) (D : Doc) (hst : D.st = env.st) :
       obtain ⟨n, i0, bi, s1, base1, hn, hi, hb, hstep, hrest⟩ :=
         resolveURIsLoop_unfold env _ _ _ _ _ _ _ _ h
       rw [← hst] at hn
-      have hr := workOk_resourceRoot D id base n (hwork _ (by simp)) hn
-      obtain ⟨hb1, dId, dOther, hsound, huris⟩ :=
-        nodeStep_spec D s id base n bi s1 base1 hn (by rw [hi]; rfl) (by rw [hb]; rfl) hstep hr
+      obtain ⟨hw0, hU0⟩ := hwork (id, base) (by simp)
+      have hr := workOk_resourceRoot D id base n hw0 hn
+      have hidS : (lookupNat id s.infos).isSome = true := by rw [hi]; rfl
+      obtain ⟨hb1, dId, dOther, hsound, _⟩ :=
+        nodeStep_spec D s id base n bi s1 base1 hn hidS (by rw [hb]; rfl) hstep hr
+      obtain ⟨uKeep, uNew, bKeep, bNew, hurisId⟩ :=
+        nodeStep_uri D ret s id base n bi s1 base1 hidS hstep
+          (fun hs bu idURI hbu hp => workOk_uri D ret huniq s.infos id base n bi hw0 hn hb hU0 hs bu idURI hbu hp)
       rw [← hb1] at hr
+      -- recorded base URIs survive the step
+      have uAll : ∀ r, UriDone D ret s.infos r → UriDone D ret (postStep D.draft s1 id base1 n).infos r := by
+        intro r h
+        by_cases hc : r ≠ id ∨ startsResource D.draft n = false
+        · exact uKeep r hc h
+        · have h1 : r = id := Classical.byContradiction fun e => hc (Or.inl e)
+          have h2 : startsResource D.draft n = true := by
+            cases h3 : startsResource D.draft n with
+            | true => rfl
+            | false => exact absurd (Or.inr h3) hc
+          rw [h1]; exact uNew h2
+      have uBase1 : UriDone D ret (postStep D.draft s1 id base1 n).infos base1 := by
+        cases hs : startsResource D.draft n with
+        | true =>
+          have e : base1 = id := by rw [hb1, hs]; rfl
+          exact (congrArg (UriDone D ret (postStep D.draft s1 id base1 n).infos) e).mpr (uNew hs)
+        | false =>
+          have e : base1 = base := by rw [hb1, hs]; rfl
+          exact (congrArg (UriDone D ret (postStep D.draft s1 id base1 n).infos) e).mpr (uAll base hU0)
       obtain ⟨P', hsub, hw', hdone', hcl', hsound', huris'⟩ :=
         ih _ _ _ (fun p => P p ∨ p = id) hrest
           (by
             intro w hw
             rcases List.mem_append.mp hw with hw | hw
             · obtain ⟨c, hc, rfl⟩ := List.mem_map.mp hw
-              exact Or.inr ⟨id, hr, (isChild_iff _ _ _).mpr ⟨n, hn, hc⟩⟩
-            · exact hwork w (List.mem_cons_of_mem _ hw))
+              exact ⟨⟨id, hr, (isChild_iff _ _ _).mpr ⟨n, hn, hc⟩⟩, uBase1⟩
+            · obtain ⟨h1, h2⟩ := hwork w (List.mem_cons_of_mem _ hw)
+              exact ⟨h1, uAll _ h2⟩)
           (by
             intro p hp
             by_cases hpid : p = id
-            · subst hpid; exact dId
-            · exact dOther p hpid (hdone p (hp.resolve_right hpid)))
+            · subst hpid; exact ⟨dId, base1, bNew, uBase1⟩
+            · obtain ⟨h1, r, h2, h3⟩ := hdone p (hp.resolve_right hpid)
+              exact ⟨dOther p hpid h1, r, bKeep p r hpid h2, uAll r h3⟩)
           (by
             intro p hp c hc
             rcases hp with hp | hp
@@ -642,723 +932,81 @@ theorem resolveURIsLoop_desig (env : Env) (D : Doc) (hst : D.st = env.st) :
               rw [List.map_map]
               exact List.mem_map.mpr ⟨c, hc', rfl⟩)
       refine ⟨P', fun p hp => hsub p (Or.inl hp), ?_, hdone', hcl', fun h => hsound' (hsound h),
-        fun h => huris' (huris h)⟩
+        fun h => huris' (hurisId h)⟩
       intro w hw
       rcases List.mem_cons.mp hw with hw | hw
       · subst hw; exact hsub id (Or.inr rfl)
       · exact hw' w (List.mem_append_right _ hw)
 
-/-- resolveURIs on a whole document: every schema of the document gets its resource root as base,
-    declared names are registered, registered names are declared -/
-theorem resolveURIs_desig (env : Env) (D : Doc) (hst : D.st = env.st) (fuel : Nat) (s s' : RState)
+/-- resolveURIs on a whole document (`ret` = the URI the root's info was initialised with): every
+    schema of the document gets its resource root as base, the info of that root holds the base URI,
+    declared names are registered, registered names are declared, registered URIs identify -/
+theorem resolveURIs_desig (env : Env) (D : Doc) (hst : D.st = env.st) (ret : Url) (huniq : UniqueLineage D)
+    (fuel : Nat) (s s' : RState)
+    (hroot : ∃ i, lookupNat D.root s.infos = some i ∧ i.uri = some ret)
     (h : resolveURIsLoop env D.draft D.root fuel [(D.root, D.root)] s = .ok s') :
-    (∀ p, D.Has p → Done D s'.infos p) ∧ (Sound D s.infos → Sound D s'.infos) ∧
-    (UrisOk D s → UrisOk D s') := by
-  obtain ⟨P', _, hw, hdone, hcl, hsound, huris⟩ :=
-    resolveURIsLoop_desig env D hst fuel _ s s' (fun _ => False) h
-      (by intro w hw; simp only [List.mem_singleton] at hw; subst hw; exact Or.inl ⟨rfl, rfl⟩)
-      (fun _ hp => absurd hp id) (fun _ hp => absurd hp id)
-  refine ⟨?_, hsound, huris⟩
-  intro p ⟨l, hl⟩
-  exact hdone p (closed_has D.st P' hcl l D.root p (hw (D.root, D.root) (by simp)) hl)
-
-/-! ### resolveRef, unfolded into facts about the tables -/
-
-/-- how resolveRef finds the resource named by the fragment-less URI -/
-def Located (env : Env) (recDoc : ResolveDoc) (root : NodeId) (s : RState) (d : DocRes) (u : Url)
-    (r : NodeId) (s' : RState) : Prop :=
-  let key := Uri.toString (Uri.dropFragment u)
-  (Json.lookup key d.uris = some r ∧ s' = s) ∨
-  (Json.lookup key d.uris = none ∧ Json.lookup key s.loaded = some r ∧ s' = mergeKnown s root r) ∨
-  (Json.lookup key d.uris = none ∧ Json.lookup key s.loaded = none ∧
-    ∃ tbl s2, env.loader = some tbl ∧ Json.lookup key tbl = some (.doc r) ∧
-      recDoc r (Uri.dropFragment u) d.draft { s with log := s.log ++ [key] } = .ok s2 ∧
-      s' = mergeKnown s2 root r)
-
-/-- the fragment dispatch of resolveRef, anchors read from the table -/
-def TableFrag (env : Env) (s' : RState) (root r : NodeId) (frag : String) (o : RefOut) : Prop :=
-  if (frag != "" && frag.toList.head? != some '/') = true then
-    ∃ rInfo a, s'.info? root r = some rInfo ∧ Json.lookup frag rInfo.anchors = some a ∧
-      o.target = a.schema ∧ o.dynFrag = (if a.dynamic then frag else "")
-  else Pointer.dereference env.st true true r frag = .ok o.target ∧ o.dynFrag = ""
-
-theorem resolveRef_unfold (env : Env) (recDoc : ResolveDoc) (root : NodeId) (s : RState) (id : NodeId)
-    (ref : String) (o : RefOut) (s' : RState)
-    (h : resolveRef env recDoc root s id ref = .ok (o, s')) :
-    ∃ refURI0 info base bInfo bu d r,
-      Uri.parse ref = .ok refURI0 ∧ s.info? root id = some info ∧ info.base = some base ∧
-      s.info? root base = some bInfo ∧ bInfo.uri = some bu ∧ s.doc? root = some d ∧
-      Located env recDoc root s d (Uri.resolveReference bu refURI0) r s' ∧
-      TableFrag env s' root r (Uri.resolveReference bu refURI0).fragment o := by
-  unfold resolveRef at h
-  rw [bind_eq_ok] at h
-  obtain ⟨refURI0, hp, h⟩ := h
-  split at h
-  · simp at h
-  rename_i info hinfo
-  split at h
-  · simp at h
-  rename_i base hbase
-  split at h
-  · simp at h
-  rename_i bInfo hbInfo
-  split at h
-  · rename_i bu d hbu hd
-    simp only at h
-    rw [bind_eq_ok] at h
-    obtain ⟨⟨r, s1⟩, hfound, h⟩ := h
-    have h1 : Located env recDoc root s d (Uri.resolveReference bu refURI0) r s1 := by
-      unfold Located
-      simp only
-      split at hfound
-      · rename_i t ht
-        simp only [Res.ok.injEq, Prod.mk.injEq] at hfound
-        left; rw [← hfound.1, ← hfound.2]; exact ⟨ht, rfl⟩
-      · rename_i hnone
-        split at hfound
-        · rename_i lroot hl
-          simp only [Res.ok.injEq, Prod.mk.injEq] at hfound
-          right; left; rw [← hfound.1, ← hfound.2]; exact ⟨hnone, hl, rfl⟩
-        · rename_i hnone2
-          right; right
-          split at hfound
-          · simp at hfound
-          · rename_i tbl htbl
-            split at hfound
-            · simp at hfound
-            · simp at hfound
-            · simp at hfound
-            · rename_i lroot hl
-              rw [bind_eq_ok] at hfound
-              obtain ⟨s2, hdoc, hfound⟩ := hfound
-              simp only [Res.ok.injEq, Prod.mk.injEq] at hfound
-              rw [← hfound.1, ← hfound.2]
-              exact ⟨hnone, hnone2, tbl, s2, htbl, hl, hdoc, rfl⟩
-    have h2 : s' = s1 ∧ TableFrag env s1 root r (Uri.resolveReference bu refURI0).fragment o := by
-      unfold TableFrag
-      simp only at h
-      split at h
-      · rename_i hc
-        rw [if_pos hc]
-        split at h
-        · simp at h
-        · rename_i rInfo hr
-          split at h
-          · simp at h
-          · rename_i a ha
-            simp only [Res.ok.injEq, Prod.mk.injEq] at h
-            refine ⟨h.2.symm, rInfo, a, hr, ha, ?_, ?_⟩
-            · rw [← h.1]
-            · rw [← h.1]
-      · rename_i hc
-        rw [if_neg hc]
-        rw [bind_eq_ok] at h
-        obtain ⟨t, ht, h⟩ := h
-        simp only [Res.ok.injEq, Prod.mk.injEq] at h
-        refine ⟨h.2.symm, ?_, ?_⟩
-        · rw [← h.1]; exact ht
-        · rw [← h.1]
-    rw [h2.1]
-    exact ⟨refURI0, info, base, bInfo, bu, d, r, hp, hinfo, hbase, hbInfo, hbu, hd, h1, h2.2⟩
-  · simp at h
-
-theorem dereference_empty (st : Store) (strict nie : Bool) (r t : NodeId)
-    (h : Pointer.dereference st strict nie r "" = .ok t) : t = r := by
-  unfold Pointer.dereference at h
-  have hp : Pointer.parse "" = .ok [] := by decide
-  rw [hp] at h
-  simp only [Res.bind_ok, Pointer.walk] at h
-  split at h
-  · simp at h
-  · simp only [Res.ok.injEq] at h; exact h.symm
-
-/-- with sound anchor tables, the table dispatch is the declarative one -/
-theorem tableFrag_desig (env : Env) (D : Doc) (hst : D.st = env.st) (s' : RState) (root r : NodeId)
-    (frag : String) (o : RefOut) (hs : Sound D s'.infos) (hr : D.Has r)
-    (h : TableFrag env s' root r frag o) : D.FragTarget r frag o.target := by
-  unfold TableFrag at h
-  unfold Doc.FragTarget
-  split at h
-  · rename_i hc
-    simp only [Bool.and_eq_true, bne_iff_ne, ne_eq] at hc
-    rw [if_neg hc.1, if_neg hc.2]
-    obtain ⟨rInfo, a, hri, ha, ht, _⟩ := h
-    have := hs r rInfo (info?_lookup _ _ _ _ hri) hr _ (lookup_mem _ _ _ ha)
-    rw [ht]
-    exact ⟨this.1, _, this.2⟩
-  · rename_i hc
-    by_cases hf : frag = ""
-    · rw [if_pos hf]
-      subst hf
-      exact dereference_empty _ _ _ _ _ h.1
-    · rw [if_neg hf]
-      have : frag.toList.head? = some '/' := by
-        simp only [Bool.and_eq_true, bne_iff_ne, ne_eq, not_and, Decidable.not_not] at hc
-        exact hc hf
-      rw [if_pos this, hst]
-      exact h.1
-
-/-! ### what resolveRefs leaves alone -/
-
-/-- the part of an info object resolveURIs computes -/
-def fixedOf (i : Info) : Option NodeId × Option Url × List (String × AnchorInfo) := (i.base, i.uri, i.anchors)
-
-/-- base / uri / anchors of every info object, uris / draft of every document, and `loaded` are the same -/
-def Frozen (s s' : RState) : Prop :=
-  (∀ k, (lookupNat k s'.infos).map fixedOf = (lookupNat k s.infos).map fixedOf) ∧
-  (∀ r, (s'.doc? r).map (fun d => (d.uris, d.draft)) = (s.doc? r).map (fun d => (d.uris, d.draft))) ∧
-  s'.loaded = s.loaded
-
-theorem Frozen.refl (s : RState) : Frozen s s := ⟨fun _ => rfl, fun _ => rfl, rfl⟩
-theorem Frozen.trans {a b c : RState} (h1 : Frozen a b) (h2 : Frozen b c) : Frozen a c :=
-  ⟨fun k => (h2.1 k).trans (h1.1 k), fun r => (h2.2.1 r).trans (h1.2.1 r), h2.2.2.trans h1.2.2⟩
-
-theorem Frozen.info {s s' : RState} (h : Frozen s s') (k : NodeId) (i : Info)
-    (hi : lookupNat k s.infos = some i) :
-    ∃ i', lookupNat k s'.infos = some i' ∧ i'.base = i.base ∧ i'.uri = i.uri ∧ i'.anchors = i.anchors := by
-  have := h.1 k
-  rw [hi] at this
-  cases h' : lookupNat k s'.infos with
-  | none => rw [h'] at this; simp at this
-  | some i' =>
-    rw [h'] at this
-    simp only [Option.map_some, Option.some.injEq, fixedOf, Prod.mk.injEq] at this
-    exact ⟨i', rfl, this.1, this.2.1, this.2.2⟩
-
-theorem Frozen.info_rev {s s' : RState} (h : Frozen s s') (k : NodeId) (i' : Info)
-    (hi : lookupNat k s'.infos = some i') :
-    ∃ i, lookupNat k s.infos = some i ∧ i'.base = i.base ∧ i'.uri = i.uri ∧ i'.anchors = i.anchors := by
-  have := h.1 k
-  rw [hi] at this
-  cases h' : lookupNat k s.infos with
-  | none => rw [h'] at this; simp at this
-  | some i =>
-    rw [h'] at this
-    simp only [Option.map_some, Option.some.injEq, fixedOf, Prod.mk.injEq] at this
-    exact ⟨i, rfl, this.1, this.2.1, this.2.2⟩
-
-theorem Frozen.doc {s s' : RState} (h : Frozen s s') (r : NodeId) (d : DocRes)
-    (hd : s.doc? r = some d) : ∃ d', s'.doc? r = some d' ∧ d'.uris = d.uris ∧ d'.draft = d.draft := by
-  have := h.2.1 r
-  rw [hd] at this
-  cases h' : s'.doc? r with
-  | none => rw [h'] at this; simp at this
-  | some d' =>
-    rw [h'] at this
-    simp only [Option.map_some, Option.some.injEq, Prod.mk.injEq] at this
-    exact ⟨d', rfl, this.1, this.2⟩
-
-theorem Frozen.doc_rev {s s' : RState} (h : Frozen s s') (r : NodeId) (d' : DocRes)
-    (hd : s'.doc? r = some d') : ∃ d, s.doc? r = some d ∧ d'.uris = d.uris ∧ d'.draft = d.draft := by
-  have := h.2.1 r
-  rw [hd] at this
-  cases h' : s.doc? r with
-  | none => rw [h'] at this; simp at this
-  | some d =>
-    rw [h'] at this
-    simp only [Option.map_some, Option.some.injEq, Prod.mk.injEq] at this
-    exact ⟨d, rfl, this.1, this.2⟩
-
-theorem doc?_of_docs_eq {a b : RState} (h : b.docs = a.docs) (r : NodeId) : b.doc? r = a.doc? r := by
-  unfold RState.doc?; rw [h]
-
-theorem frozen_updInfo (s : RState) (k : NodeId) (f : Info → Info) (hf : ∀ i, fixedOf (f i) = fixedOf i) :
-    Frozen s (s.updInfo k f) := by
-  refine ⟨?_, ?_, (updInfo_same s k f).2⟩
-  · intro x
-    rw [updInfo_infos_lookup]
-    split
-    · rw [Option.map_map]
-      congr 1
-      funext i
-      exact hf i
-    · rfl
-  · intro r
-    rw [doc?_of_docs_eq (updInfo_docs s k f)]
-
-theorem frozen_mergeKnown (s : RState) (a b : NodeId) : Frozen s (mergeKnown s a b) := by
-  refine ⟨fun k => by rw [mergeKnown_infos], ?_, (mergeKnown_same s a b).2⟩
-  intro r
-  unfold mergeKnown
-  split
-  · rename_i d l hd hl
-    rw [doc?_setDoc]
-    simp only
-    split
-    · rename_i hr
-      have : d.root = a := doc?_root _ _ _ hd
-      rw [← hr, this, hd]
-      rfl
-    · rfl
-  · rfl
-
-theorem done_frozen (D : Doc) {s s' : RState} (h : Frozen s s') (p : NodeId) (hd : Done D s.infos p) :
-    Done D s'.infos p := by
-  obtain ⟨i, r, hi, hb, hr, hreg⟩ := hd
-  obtain ⟨i', hi', hb', _, _⟩ := h.info p i hi
-  refine ⟨i', r, hi', by rw [hb', hb], hr, ?_⟩
-  intro n hn e he
-  obtain ⟨ri, hri, hl⟩ := hreg n hn e he
-  obtain ⟨ri', hri', _, _, ha⟩ := h.info r ri hri
-  exact ⟨ri', hri', by rw [ha]; exact hl⟩
-
-theorem sound_frozen (D : Doc) {s s' : RState} (h : Frozen s s') (hs : Sound D s.infos) :
-    Sound D s'.infos := by
-  intro b i' hi' hb e he
-  obtain ⟨i, hi, _, _, ha⟩ := h.info_rev b i' hi'
-  rw [ha] at he
-  exact hs b i hi hb e he
-
-theorem urisOk_frozen (D : Doc) {s s' : RState} (h : Frozen s s') (hs : UrisOk D s) : UrisOk D s' := by
-  intro d' hd' e he
-  obtain ⟨d, hd, hu, _⟩ := h.doc_rev D.root d' hd'
-  rw [hu] at he
-  exact hs d hd e he
-
-/-! ### one reference, resolved without loading a document -/
-
-/-- the target `t` recorded for `$ref: ref` in schema `id` is the designated one: the reference is
-    resolved against the URI of the resource root of `id`, the fragment-less URI is looked up in the
-    document's `uris`, then in `loaded`, and the fragment selects inside the resource found -/
-def RefDesig (D : Doc) (s : RState) (id : NodeId) (ref : String) (t : NodeId) : Prop :=
-  ∃ b bi bu refURI d r, D.ResourceRoot id b ∧ lookupNat b s.infos = some bi ∧ bi.uri = some bu ∧
-    Uri.parse ref = .ok refURI ∧ s.doc? D.root = some d ∧
-    Json.lookup (Uri.toString (Uri.dropFragment (Uri.resolveReference bu refURI))) (d.uris ++ s.loaded) = some r ∧
-    D.FragTarget r (Uri.resolveReference bu refURI).fragment t
-
-theorem refDesig_frozen (D : Doc) {s s' : RState} (h : Frozen s s') (id : NodeId) (ref : String) (t : NodeId)
-    (hd : RefDesig D s id ref t) : RefDesig D s' id ref t := by
-  obtain ⟨b, bi, bu, refURI, d, r, hb, hbi, hbu, hp, hdoc, hl, hf⟩ := hd
-  obtain ⟨bi', hbi', _, hu, _⟩ := h.info b bi hbi
-  obtain ⟨d', hd', huris, _⟩ := h.doc D.root d hdoc
-  exact ⟨b, bi', bu, refURI, d', r, hb, hbi', by rw [hu, hbu], hp, hd', by rw [huris, h.2.2]; exact hl, hf⟩
-
-/-- what resolveURIs established for the document, plus: everything cached so far is this document -/
-structure StaticInv (D : Doc) (s : RState) : Prop where
-  done : ∀ p, D.Has p → Done D s.infos p
-  sound : Sound D s.infos
-  uris : UrisOk D s
-  loaded : ∀ e ∈ s.loaded, e.2 = D.root
-
-theorem staticInv_frozen (D : Doc) {s s' : RState} (h : Frozen s s') (hs : StaticInv D s) : StaticInv D s' :=
-  ⟨fun p hp => done_frozen D h p (hs.done p hp), sound_frozen D h hs.sound, urisOk_frozen D h hs.uris,
-    fun e he => hs.loaded e (by rw [← h.2.2]; exact he)⟩
-
-theorem lookup_append_some {α} (k : String) (x y : List (String × α)) (v : α)
-    (h : Json.lookup k x = some v) : Json.lookup k (x ++ y) = some v := by
-  induction x with
-  | nil => simp at h
-  | cons e r ih =>
-    obtain ⟨k', v'⟩ := e
-    rw [List.cons_append, Json.lookup_cons]
-    rw [Json.lookup_cons] at h
-    split
-    · rename_i hk; rw [if_pos hk] at h; exact h
-    · rename_i hk; rw [if_neg hk] at h; exact ih h
-
-theorem lookup_append_none {α} (k : String) (x y : List (String × α))
-    (h : Json.lookup k x = none) : Json.lookup k (x ++ y) = Json.lookup k y := by
-  induction x with
-  | nil => rfl
-  | cons e r ih =>
-    obtain ⟨k', v'⟩ := e
-    rw [List.cons_append, Json.lookup_cons]
-    rw [Json.lookup_cons] at h
-    split
-    · rename_i hk; rw [if_pos hk] at h; simp at h
-    · rename_i hk; rw [if_neg hk] at h; exact ih h
-
-theorem resolveRef_local (env : Env) (recDoc : ResolveDoc) (hrec : RecSpec env recDoc) (D : Doc)
-    (hst : D.st = env.st) (s : RState) (id : NodeId) (ref : String) (o : RefOut) (s' : RState)
-    (hinv : StaticInv D s) (hid : D.Has id)
-    (h : resolveRef env recDoc D.root s id ref = .ok (o, s')) (hlog : s'.log = s.log) :
-    s'.infos = s.infos ∧ Frozen s s' ∧ RefDesig D s id ref o.target := by
-  obtain ⟨refURI0, info, base, bInfo, bu, d, r, hp, hinfo, hbase, hbInfo, hbu, hd, hloc, hfrag⟩ :=
-    resolveRef_unfold env recDoc D.root s id ref o s' h
-  obtain ⟨i, b, hi, hb, hr, _⟩ := hinv.done id hid
-  rw [info?_lookup _ _ _ _ hinfo] at hi
-  simp only [Option.some.injEq] at hi
-  subst hi
-  rw [hbase] at hb
-  simp only [Option.some.injEq] at hb
-  subst hb
-  unfold Located at hloc
-  simp only at hloc
-  rcases hloc with ⟨hl, rfl⟩ | ⟨hl1, hl2, rfl⟩ | ⟨_, _, tbl, s2, _, _, hdoc, rfl⟩
-  · refine ⟨rfl, Frozen.refl _, base, bInfo, bu, refURI0, d, r, hr, info?_lookup _ _ _ _ hbInfo, hbu, hp, hd,
-      lookup_append_some _ _ _ _ hl, ?_⟩
-    have hrr := hinv.uris d hd _ (lookup_mem _ _ _ hl)
-    exact tableFrag_desig env D hst _ _ _ _ _ hinv.sound (ResourceRoot.has hrr) hfrag
-  · refine ⟨mergeKnown_infos _ _ _, frozen_mergeKnown _ _ _, base, bInfo, bu, refURI0, d, r, hr,
-      info?_lookup _ _ _ _ hbInfo, hbu, hp, hd, by rw [lookup_append_none _ _ _ hl1]; exact hl2, ?_⟩
-    have hroot : r = D.root := hinv.loaded _ (lookup_mem _ _ _ hl2)
-    have hs : Sound D (mergeKnown s D.root r).infos := by rw [mergeKnown_infos]; exact hinv.sound
-    exact tableFrag_desig env D hst _ _ _ _ _ hs (by rw [hroot]; exact ResourceRoot.has (resourceRoot_root D)) hfrag
-  · exfalso
-    obtain ⟨⟨l, hl⟩, _⟩ := (hrec _ _ _ _ _ hdoc).1
-    rw [(mergeKnown_same _ _ _).1, hl] at hlog
-    have := congrArg List.length hlog
-    simp only [List.length_append, List.length_cons, List.length_nil] at this
-    omega
-
-/-! ### resolveRefs over one document, nothing loaded -/
-
-/-- schema `id`, if it carries a `$ref`, has a recorded target, and it is the designated one -/
-def RefOk (D : Doc) (s : RState) (id : NodeId) : Prop :=
-  ∀ n, D.st.get? id = some n → n.ref ≠ "" →
-    ∃ info t, lookupNat id s.infos = some info ∧ info.resolvedRef = some t ∧ RefDesig D s id n.ref t
-
-/-- `$ref` targets outside `ids` are untouched -/
-def RefFrame (ids : List NodeId) (s s' : RState) : Prop :=
-  ∀ k, k ∉ ids → (lookupNat k s'.infos).map (·.resolvedRef) = (lookupNat k s.infos).map (·.resolvedRef)
-
-theorem log_squeeze {a b c : RState} (h1 : Ext a b) (h2 : Ext b c) (h : c.log = a.log) :
-    b.log = a.log ∧ c.log = b.log := by
-  obtain ⟨⟨l1, e1⟩, _⟩ := h1
-  obtain ⟨⟨l2, e2⟩, _⟩ := h2
-  have : a.log ++ (l1 ++ l2) = a.log ++ [] := by
-    rw [← List.append_assoc, ← e1, ← e2, h]; simp
-  have := List.append_cancel_left this
-  have hl1 : l1 = [] := (List.append_eq_nil_iff.mp this).1
-  have hl2 : l2 = [] := (List.append_eq_nil_iff.mp this).2
-  subst hl1 hl2
-  simp only [List.append_nil] at e1 e2
-  exact ⟨e1, e2⟩
-
-theorem has_child (D : Doc) (p c : NodeId) (hp : D.Has p) (hc : isChild D.st p c = true) : D.Has c := by
-  obtain ⟨l, hl⟩ := hp
-  exact ⟨l ++ [c], isLineage_snoc _ _ _ _ _ hl hc⟩
-
-theorem allNodes_has (D : Doc) : ∀ fuel work, (∀ w ∈ work, D.Has w) →
-    ∀ id ∈ allNodes D.st fuel work, D.Has id := by
-  intro fuel
-  induction fuel with
-  | zero => intro work _ id h; simp [allNodes] at h
-  | succ fuel ih =>
-    intro work hw id h
-    cases work with
-    | nil => simp [allNodes] at h
-    | cons w work =>
-      rw [allNodes] at h
-      split at h
-      · rename_i n hn
-        rcases List.mem_cons.mp h with h | h
-        · subst h; exact hw _ (by simp)
-        · apply ih _ _ id h
-          intro x hx
-          rcases List.mem_append.mp hx with hx | hx
-          · exact has_child D w x (hw w (by simp)) ((isChild_iff _ _ _).mpr ⟨n, hn, hx⟩)
-          · exact hw x (List.mem_cons_of_mem _ hx)
-      · exact ih _ (fun x hx => hw x (List.mem_cons_of_mem _ hx)) id h
-
-theorem resolveRefsLoop_local (env : Env) (recDoc : ResolveDoc) (hrec : RecSpec env recDoc) (D : Doc)
-    (hst : D.st = env.st) :
-    ∀ ids s s', resolveRefsLoop env recDoc D.root ids s = .ok s' → s'.log = s.log →
-      StaticInv D s → (∀ id ∈ ids, D.Has id) →
-      Frozen s s' ∧ RefFrame ids s s' ∧ ∀ id ∈ ids, RefOk D s' id := by
-  intro ids
-  induction ids with
-  | nil =>
-    intro s s' h _ _ _
-    simp [resolveRefsLoop] at h; subst h
-    exact ⟨Frozen.refl _, fun _ _ => rfl, fun _ h => absurd h (by simp)⟩
-  | cons id rest ih =>
-    intro s s' h hlog hinv hids
-    rw [resolveRefsLoop] at h
-    split at h
-    · simp at h
-    · rename_i n hn
-      simp only at h
-      rw [bind_eq_ok] at h
-      obtain ⟨s1, h1, h⟩ := h
-      rw [bind_eq_ok] at h
-      obtain ⟨s2, h2, h⟩ := h
-      have hid : D.Has id := hids id (by simp)
-      have g1 : Ext s s1 ∧ (s1.log = s.log → Frozen s s1 ∧
-          (∀ k, k ≠ id → lookupNat k s1.infos = lookupNat k s.infos) ∧
-          (n.ref ≠ "" → ∃ info t, lookupNat id s1.infos = some info ∧ info.resolvedRef = some t ∧
-            RefDesig D s id n.ref t)) := by
-        split at h1
-        · rw [bind_eq_ok] at h1
-          obtain ⟨⟨o, sa⟩, hr, h1⟩ := h1
-          simp only [Res.ok.injEq] at h1
-          subst h1
-          refine ⟨(resolveRef_spec env recDoc hrec _ _ _ _ _ _ hr).1.trans (updInfo_same _ _ _).ext, ?_⟩
-          intro hl
-          rw [(updInfo_same _ _ _).1] at hl
-          obtain ⟨hinf, hfr, hdes⟩ := resolveRef_local env recDoc hrec D hst s id n.ref o sa hinv hid hr hl
-          refine ⟨hfr.trans (frozen_updInfo _ _ _ (fun _ => rfl)), ?_, fun _ => ?_⟩
-          · intro k hk
-            rw [updInfo_infos_lookup, if_neg (fun e => hk e.symm), hinf]
-          · obtain ⟨i, _, hi, _⟩ := hinv.done id hid
-            rw [updInfo_infos_lookup, if_pos rfl, hinf, hi]
-            exact ⟨_, o.target, rfl, rfl, hdes⟩
-        · rename_i hne
-          simp only [Res.ok.injEq] at h1
-          subst h1
-          exact ⟨Ext.refl _, fun _ => ⟨Frozen.refl _, fun _ _ => rfl, fun h => absurd (by simpa using h) hne⟩⟩
-      have g2 : Ext s1 s2 ∧ (s2.log = s1.log → StaticInv D s1 → Frozen s1 s2 ∧
-          (∀ k, k ≠ id → lookupNat k s2.infos = lookupNat k s1.infos) ∧
-          (∀ i t, lookupNat id s1.infos = some i → i.resolvedRef = some t →
-            ∃ i', lookupNat id s2.infos = some i' ∧ i'.resolvedRef = some t)) := by
-        split at h2
-        · rw [bind_eq_ok] at h2
-          obtain ⟨⟨o, sb⟩, hr, h2⟩ := h2
-          simp only [Res.ok.injEq] at h2
-          subst h2
-          refine ⟨(resolveRef_spec env recDoc hrec _ _ _ _ _ _ hr).1.trans (updInfo_same _ _ _).ext, ?_⟩
-          intro hl hinv1
-          rw [(updInfo_same _ _ _).1] at hl
-          obtain ⟨hinf, hfr, _⟩ := resolveRef_local env recDoc hrec D hst s1 id n.dynamicRef o sb hinv1 hid hr hl
-          refine ⟨hfr.trans (frozen_updInfo _ _ _ (fun _ => rfl)), ?_, ?_⟩
-          · intro k hk
-            rw [updInfo_infos_lookup, if_neg (fun e => hk e.symm), hinf]
-          · intro i t hi ht
-            rw [updInfo_infos_lookup, if_pos rfl, hinf, hi]
-            exact ⟨_, rfl, ht⟩
-        · simp only [Res.ok.injEq] at h2
-          subst h2
-          exact ⟨Ext.refl _, fun _ _ => ⟨Frozen.refl _, fun _ _ => rfl, fun i t hi ht => ⟨i, hi, ht⟩⟩⟩
-      have e3 : Ext s2 s' := (resolveRefsLoop_spec env recDoc hrec _ _ _ _ h).1
-      obtain ⟨hl1, hl23⟩ := log_squeeze g1.1 (g2.1.trans e3) hlog
-      obtain ⟨hl2, hl3⟩ := log_squeeze g2.1 e3 hl23
-      obtain ⟨f1, k1, r1⟩ := g1.2 hl1
-      have hinv1 := staticInv_frozen D f1 hinv
-      obtain ⟨f2, k2, r2⟩ := g2.2 hl2 hinv1
-      have hinv2 := staticInv_frozen D f2 hinv1
-      obtain ⟨f3, fr3, ok3⟩ := ih s2 s' h hl3 hinv2 (fun x hx => hids x (List.mem_cons_of_mem _ hx))
-      refine ⟨f1.trans (f2.trans f3), ?_, ?_⟩
-      · intro k hk
-        have hk1 : k ≠ id := fun e => hk (by rw [e]; simp)
-        have hk2 : k ∉ rest := fun e => hk (List.mem_cons_of_mem _ e)
-        rw [fr3 k hk2, k2 k hk1, k1 k hk1]
-      · intro x hx
-        by_cases hxr : x ∈ rest
-        · exact ok3 x hxr
-        · have hxid : x = id := (List.mem_cons.mp hx).resolve_right hxr
-          subst hxid
-          intro n' hn' hne
-          rw [hst, hn] at hn'
+    (∀ p, D.Has p → Done D s'.infos p ∧ ∃ r, HasBase s'.infos p r ∧ UriDone D ret s'.infos r) ∧
+    (Sound D s.infos → Sound D s'.infos) ∧ (UrisId D ret s → UrisId D ret s') := by
+  cases fuel with
+  | zero => simp [resolveURIsLoop] at h
+  | succ fuel =>
+    obtain ⟨n, i0, bi, s1, base1, hn, hi, hb, hstep, hrest⟩ := resolveURIsLoop_unfold env _ _ _ _ _ _ _ _ h
+    rw [← hst] at hn
+    obtain ⟨ir, hir, huri⟩ := hroot
+    rw [hb] at hir
+    simp only [Option.some.injEq] at hir
+    subst hir
+    have hidS : (lookupNat D.root s.infos).isSome = true := by rw [hi]; rfl
+    have hsR : startsResourceAt D.st D.draft D.root = startsResource D.draft n := by
+      unfold startsResourceAt; rw [hn]
+    obtain ⟨hb1, dId, _, hsound, _⟩ :=
+      nodeStep_spec D s D.root D.root n bi s1 base1 hn hidS hidS hstep (by split <;> exact resourceRoot_root D)
+    have hb1' : base1 = D.root := by rw [hb1]; split <;> rfl
+    obtain ⟨uKeep, uNew, _, bNew, hurisId⟩ :=
+      nodeStep_uri D ret s D.root D.root n bi s1 base1 hidS hstep (by
+        intro hs bu idURI hbu hp
+        rw [huri] at hbu
+        simp only [Option.some.injEq] at hbu
+        subst hbu
+        refine ⟨[], by simp [isLineage], rfl, ?_⟩
+        unfold baseUriAlong
+        simp [hsR, hs, idUrl_of_parse _ _ _ _ hn hp])
+    have uRoot : UriDone D ret (postStep D.draft s1 D.root base1 n).infos D.root := by
+      cases hs : startsResource D.draft n with
+      | true => exact uNew hs
+      | false =>
+        apply uKeep _ (Or.inr hs)
+        refine ⟨bi, [], hb, by simp [isLineage], ?_⟩
+        rw [huri]
+        unfold baseUriAlong
+        simp [hsR, hs]
+    obtain ⟨P', hsub, _, hdone, hcl, hsound', huris'⟩ :=
+      resolveURIsLoop_desig env D hst ret huniq fuel _ _ s' (fun p => p = D.root) hrest
+        (by
+          intro w hw
+          rw [List.append_nil] at hw
+          obtain ⟨c, hc, rfl⟩ := List.mem_map.mp hw
+          refine ⟨⟨D.root, ?_, (isChild_iff _ _ _).mpr ⟨n, hn, hc⟩⟩, ?_⟩
+          · simp only; rw [hb1']; exact resourceRoot_root D
+          · exact (congrArg (UriDone D ret (postStep D.draft s1 D.root base1 n).infos) hb1').mpr uRoot)
+        (by
+          intro p hp
+          subst hp
+          exact ⟨dId, base1, bNew,
+            (congrArg (UriDone D ret (postStep D.draft s1 D.root base1 n).infos) hb1').mpr uRoot⟩)
+        (by
+          intro p hp c hc
+          subst hp
+          obtain ⟨n', hn', hc'⟩ := (isChild_iff _ _ _).mp hc
+          rw [hn] at hn'
           simp only [Option.some.injEq] at hn'
           subst hn'
-          obtain ⟨info, t, hi, ht, hdes⟩ := r1 hne
-          obtain ⟨i2, hi2, ht2⟩ := r2 info t hi ht
-          have := fr3 x hxr
-          rw [hi2] at this
-          cases h' : lookupNat x s'.infos with
-          | none => rw [h'] at this; simp at this
-          | some i' =>
-            rw [h'] at this
-            simp only [Option.map_some, Option.some.injEq] at this
-            exact ⟨i', t, rfl, by rw [this, ht2], refDesig_frozen D (f1.trans (f2.trans f3)) _ _ _ hdes⟩
-
-/-! ### resolver.resolve on one document, nothing loaded -/
-
-theorem checkStructure_forall (st : Store) (P : Info → Prop) (hP : ∀ p, P { path := p }) :
-    ∀ fuel work acc res, checkStructure st fuel work acc = .ok res →
-      (∀ e ∈ acc, P e.2) → ∀ e ∈ res, P e.2 := by
-  intro fuel
-  induction fuel with
-  | zero => intro work acc res h; simp [checkStructure] at h
-  | succ fuel ih =>
-    intro work acc res h hacc
-    cases work with
-    | nil => simp [checkStructure] at h; subst h; exact hacc
-    | cons e work =>
-      obtain ⟨id, path⟩ := e
-      rw [checkStructure] at h
-      split at h
-      · simp at h
-      · split at h
-        · simp at h
-        · apply ih _ _ _ h
-          intro e he
-          rcases List.mem_append.mp he with he | he
-          · exact hacc e he
-          · simp only [List.mem_singleton] at he
-            subst he; exact hP _
-
-theorem lookupNat_append_none {α} (k : Nat) (a b : List (Nat × α)) (h : lookupNat k a = none) :
-    lookupNat k (a ++ b) = lookupNat k b := by
-  induction a with
-  | nil => rfl
-  | cons e r ih =>
-    obtain ⟨k', v⟩ := e
-    simp only [List.cons_append, lookupNat] at h ⊢
-    split
-    · rename_i hk; rw [if_pos hk] at h; simp at h
-    · rename_i hk; rw [if_neg hk] at h; exact ih h
-
-theorem sound_append_fresh (D : Doc) (a fresh : List (NodeId × Info)) (ha : Sound D a)
-    (hf : ∀ e ∈ fresh, e.2.anchors = []) : Sound D (a ++ fresh) := by
-  intro b i hi hb e he
-  cases h0 : lookupNat b a with
-  | some i0 =>
-    rw [lookupNat_append_of_isSome _ _ _ (by rw [h0]; rfl), h0] at hi
-    simp only [Option.some.injEq] at hi
-    subst hi
-    exact ha b i0 h0 hb e he
-  | none =>
-    rw [lookupNat_append_none _ _ _ h0] at hi
-    have := hf _ (lookupNat_mem _ _ _ hi)
-    simp only at this
-    rw [this] at he
-    simp at he
-
-/-- the draft recorded for a document is not changed by resolveURIs -/
-def DraftKept (s s' : RState) : Prop :=
-  ∀ r d, s.doc? r = some d → ∃ d', s'.doc? r = some d' ∧ d'.draft = d.draft
-
-theorem DraftKept.refl (s : RState) : DraftKept s s := fun _ d h => ⟨d, h, rfl⟩
-theorem DraftKept.trans {a b c : RState} (h1 : DraftKept a b) (h2 : DraftKept b c) : DraftKept a c := by
-  intro r d hd
-  obtain ⟨d1, hd1, e1⟩ := h1 r d hd
-  obtain ⟨d2, hd2, e2⟩ := h2 r d1 hd1
-  exact ⟨d2, hd2, e2.trans e1⟩
-theorem DraftKept.of_docs_eq {a b : RState} (h : b.docs = a.docs) : DraftKept a b :=
-  fun r d hd => ⟨d, by rw [doc?_of_docs_eq h]; exact hd, rfl⟩
-
-theorem newUriState_draftKept (root : NodeId) (s : RState) (id : NodeId) (u : Url) :
-    DraftKept s (newUriState root s id u) := by
-  unfold newUriState
-  simp only
-  split
-  · rename_i d hd
-    intro r d0 hd0
-    rw [doc?_setDoc]
-    simp only
-    split
-    · rename_i hr
-      have h1 : d.root = root := doc?_root _ _ _ hd
-      rw [doc?_of_docs_eq (updInfo_docs _ _ _)] at hd
-      rw [h1] at hr
-      subst hr
-      rw [hd] at hd0
-      simp only [Option.some.injEq] at hd0
-      subst hd0
-      exact ⟨_, rfl, rfl⟩
-    · exact ⟨d0, by rw [doc?_of_docs_eq (updInfo_docs _ _ _)]; exact hd0, rfl⟩
-  · exact DraftKept.of_docs_eq (updInfo_docs _ _ _)
-
-theorem postStep_docs (draft : Draft) (s : RState) (id base : NodeId) (n : Node) :
-    (postStep draft s id base n).docs = s.docs := by
-  unfold postStep
-  simp only
-  split
-  · rw [setAnchor_docs, setAnchor_docs, updInfo_docs]
-  · rw [updInfo_docs]
-
-theorem uriStep_draftKept (draft : Draft) (root : NodeId) (s : RState) (id base : NodeId) (n : Node)
-    (bi : Info) (s1 : RState) (base1 : NodeId) (h : uriStep draft root s id base n bi = .ok (s1, base1)) :
-    DraftKept s s1 := by
-  cases draft with
-  | d2020 =>
-    rcases uriStep_d2020 _ _ _ _ _ _ _ _ h with ⟨_, rfl, _⟩ | ⟨_, _, _, _, _, _, rfl⟩
-    · exact DraftKept.refl _
-    · exact newUriState_draftKept _ _ _ _
-  | d7 =>
-    rcases uriStep_d7 _ _ _ _ _ _ _ _ h with ⟨_, rfl, _⟩ | ⟨_, _, _, rfl, _⟩ | ⟨_, _, _, _, _, _, _, _, rfl⟩
-    · exact DraftKept.refl _
-    · exact DraftKept.of_docs_eq (setAnchor_docs _ _ _ _ _)
-    · exact newUriState_draftKept _ _ _ _
-
-theorem resolveURIsLoop_draftKept (env : Env) (draft : Draft) (root : NodeId) :
-    ∀ fuel work s s', resolveURIsLoop env draft root fuel work s = .ok s' → DraftKept s s' := by
-  intro fuel
-  induction fuel with
-  | zero => intro work s s' h; simp [resolveURIsLoop] at h
-  | succ fuel ih =>
-    intro work s s' h
-    cases work with
-    | nil => simp [resolveURIsLoop] at h; subst h; exact DraftKept.refl _
-    | cons w work =>
-      obtain ⟨id, base⟩ := w
-      obtain ⟨n, i0, bi, s1, base1, _, _, _, hstep, hrest⟩ := resolveURIsLoop_unfold env _ _ _ _ _ _ _ _ h
-      exact (uriStep_draftKept _ _ _ _ _ _ _ _ _ hstep).trans
-        ((DraftKept.of_docs_eq (postStep_docs _ _ _ _ _)).trans (ih _ _ _ hrest))
-
-theorem resolveDocStep_local (env : Env) (recDoc : ResolveDoc) (hrec : RecSpec env recDoc)
-    (root : NodeId) (baseURI : Url) (inherit : Draft) (s s' : RState)
-    (h : resolveDocStep env recDoc root baseURI inherit s = .ok s') (hlog : s'.log = s.log)
-    (hsound : ∀ draft, Sound ⟨env.st, draft, root⟩ s.infos)
-    (hloaded : ∀ e ∈ s.loaded, e.2 = root) :
-    ∃ d, s'.doc? root = some d ∧ StaticInv ⟨env.st, d.draft, root⟩ s' ∧
-      ∀ id ∈ allNodes env.st (env.st.size + 2) [root], RefOk ⟨env.st, d.draft, root⟩ s' id := by
-  unfold resolveDocStep at h
-  split at h
-  · simp at h
-  split at h
-  · simp at h
-  rename_i rn hrn
-  simp only at h
-  rw [bind_eq_ok] at h
-  obtain ⟨fresh, hfresh, h⟩ := h
-  split at h
-  · simp at h
-  rw [bind_eq_ok] at h
-  obtain ⟨sB, hB, h⟩ := h
-  generalize hdr : (if (rn.schema == "") = true then inherit else detectDraft env rn.schema) = draft at hB h
-  let D : Doc := ⟨env.st, draft, root⟩
-  have hB' : resolveURIsLoop env D.draft D.root (env.st.size + 2) [(D.root, D.root)] _ = .ok sB := hB
-  obtain ⟨hdone, hsnd, huris⟩ := resolveURIs_desig env D rfl _ _ _ hB'
-  have hnil : ∀ e ∈ fresh, e.2.anchors = [] :=
-    checkStructure_forall env.st (fun i => i.anchors = []) (fun _ => rfl) _ _ _ _ hfresh
-      (fun _ he => absurd he (by simp))
-  have hsB : Sound D sB.infos := by
-    apply hsnd
-    refine sound_updInfo D _ root _ ?_ ?_
-    · intro _ _ he; exact Or.inl he
-    · rw [setDoc_infos]
-      exact sound_append_fresh D _ _ (hsound draft) hnil
-  have huB : UrisOk D sB := by
-    apply huris
-    intro d hd e he
-    rw [doc?_of_docs_eq (updInfo_docs _ _ _), doc?_setDoc, if_pos (rfl : root = D.root)] at hd
-    simp only [Option.some.injEq] at hd
-    subst hd
-    simp only [List.mem_singleton] at he
-    subst he
-    exact resourceRoot_root D
-  have hdB : ∃ dB, sB.doc? root = some dB ∧ dB.draft = draft := by
-    have := resolveURIsLoop_draftKept _ _ _ _ _ _ _ hB root
-      { root := root, draft := draft, uris := [(Uri.toString baseURI, root)], known := fresh.map (·.1) }
-      (by rw [doc?_of_docs_eq (updInfo_docs _ _ _), doc?_setDoc]; simp)
-    exact this
-  have sameB : sB.log = s.log ∧ sB.loaded = s.loaded := by
-    have h0 := (resolveURIsLoop_spec _ _ _ _ _ _ _ hB).1
-    have := (SameLL.trans (setDoc_same _ _) (updInfo_same _ _ _)).trans h0
-    exact this
-  obtain ⟨fr, _, hok⟩ := resolveRefsLoop_local env recDoc hrec D rfl _ _ _ h
-    (by show s'.log = sB.log; rw [hlog, sameB.1])
-    ⟨hdone, hsB, UrisOk.of_docs_eq rfl huB, by
-      intro e he
-      have he' : e ∈ (sB.loaded.filter _) ++ [(_, root), (_, root)] := he
-      rcases List.mem_append.mp he' with h1 | h1
-      · have := (List.mem_filter.mp h1).1
-        rw [sameB.2] at this
-        exact hloaded e this
-      · simp only [List.mem_cons, List.mem_nil_iff, or_false] at h1
-        rcases h1 with h1 | h1 <;> (subst h1; rfl)⟩
-    (allNodes_has D _ _ (by
-      intro w hw
-      simp only [List.mem_singleton] at hw
-      subst hw
-      exact ResourceRoot.has (resourceRoot_root D)))
-  obtain ⟨dB, hdB, hdrB⟩ := hdB
-  obtain ⟨d', hd', _, hdr'⟩ := fr.doc root dB (by rw [← hdB]; exact doc?_of_docs_eq (a := sB) rfl root)
-  have hD : (⟨env.st, d'.draft, root⟩ : Doc) = D := by rw [hdr', hdrB]
-  refine ⟨d', hd', ?_, ?_⟩
-  · rw [hD]
-    exact staticInv_frozen D fr ⟨hdone, hsB, UrisOk.of_docs_eq rfl huB, by
-      intro e he
-      have he' : e ∈ (sB.loaded.filter _) ++ [(_, root), (_, root)] := he
-      rcases List.mem_append.mp he' with h1 | h1
-      · have := (List.mem_filter.mp h1).1
-        rw [sameB.2] at this
-        exact hloaded e this
-      · simp only [List.mem_cons, List.mem_nil_iff, or_false] at h1
-        rcases h1 with h1 | h1 <;> (subst h1; rfl)⟩
-  · rw [hD]; exact hok
+          right
+          rw [List.append_nil, List.map_map]
+          exact List.mem_map.mpr ⟨c, hc', rfl⟩)
+    refine ⟨?_, fun h => hsound' (hsound h), fun h => huris' (hurisId h)⟩
+    intro p ⟨l, hl⟩
+    exact hdone p (closed_has D.st P' hcl l D.root p (hsub D.root rfl) hl)
 
 end RInv
 end Go
